@@ -27,16 +27,39 @@ SMALL = ["0", "''", "()"]
 OPS = ["il", "ir", "dl", "dr", "set", "del"]
 
 
+# the key types the graph store itself keeps in its bidirectional map (node handles, ports, sub-ports) next to the
+# plain values they share a hash with: `hash(Node(i)) == hash((i,))` (dataclass hash), so both land in one dict bucket
+# and the dict must compare them (seeded change C18-14: a hand-written `Node.__eq__` without a class guard)
+HANDLES = ["Node(0)", "(0,)", "Node(1)", "(1,)", "OutPort(Node(0), 0)", "InPort(Node(0), 0)",
+           "_SubPort(OutPort(Node(0), 0), 0)", "_SubPort(InPort(Node(0), 0), 1)", "0"]
+
+
+def _handle_vals():
+    from hugr.hugr.base import _SubPort
+    from hugr.hugr.node_port import InPort, Node, OutPort
+
+    env = {"Node": Node, "OutPort": OutPort, "InPort": InPort, "_SubPort": _SubPort}
+    return {t: eval(t, env) for t in HANDLES}  # noqa: S307 - fixed token list above
+
+
 _VALS = {t: ast.literal_eval(t) for t in PLAIN + EQCLS + SMALL}
+_VALS.update(_handle_vals())
 
 
 def _val(tok: str):
     return _VALS[tok]
 
 
+def _safe_eq(a, b) -> bool:
+    try:
+        return bool(a == b)
+    except Exception:  # noqa: BLE001 - a broken __eq__ of a key class is reported by the oracle, not here
+        return a is b
+
+
 def _canon_val(v, pool) -> str:
     """Model key of a Python value: the first pool token whose value is == to it."""
-    return next(t for t in pool if _VALS[t] == v)
+    return next(t for t in pool if _safe_eq(_VALS[t], v))
 
 
 def _canon(tok, pool) -> str:
@@ -44,7 +67,7 @@ def _canon(tok, pool) -> str:
 
 
 def _pool(spec):
-    return {"plain": PLAIN, "eq": EQCLS, "small": SMALL}[spec["pool"]]
+    return {"plain": PLAIN, "eq": EQCLS, "small": SMALL, "handles": HANDLES}[spec["pool"]]
 
 
 # ----------------------------------------------------------------------------- generation
@@ -94,6 +117,8 @@ def cases(rng, tier):
         n_plain, n_eq, maxlen = 30000, 6000, 60
     for _ in range(n_plain):
         yield {"pool": "plain", "init": _rand_init(rng, PLAIN), "ops": _rand_seq(rng, PLAIN, maxlen)}
+    for _ in range(n_eq):
+        yield {"pool": "handles", "init": _rand_init(rng, HANDLES), "ops": _rand_seq(rng, HANDLES, maxlen)}
     for _ in range(n_eq):
         # distinct canonical keys for init so the mapping literal is a mapping
         init = _rand_init(rng, ["0", "1", "''"])
@@ -160,7 +185,7 @@ def _state_obs(m, pool):
     ]
 
 
-def run_impl(spec):
+def _run_impl(spec):
     pool = _pool(spec)
     m = _new(spec)
     if m is None:
@@ -213,7 +238,7 @@ SITE = {
 }
 
 
-def oracle(spec):
+def _oracle(spec):
     pool = _pool(spec)
     fails: list[Failure] = []
     pairs = [(_val(k), _val(v)) for k, v in spec["init"]]
@@ -274,6 +299,23 @@ def oracle(spec):
             ref = newref
         _check_state(m, ref, pool, site, fails)
     return fails
+
+
+def run_impl(spec):
+    # comparing two values of the pool never raises on the unchanged tree (they are ints, strings, tuples and the
+    # graph store's own handle classes); an exception escaping here means that equality / hashing of the keys the map is
+    # used with is itself broken, which is an observation (and an oracle failure), not a harness fault
+    try:
+        return _run_impl(spec)
+    except Exception as e:  # noqa: BLE001
+        return dumps([[A("harness-comparison-raised"), type(e).__name__]])
+
+
+def oracle(spec):
+    try:
+        return _oracle(spec)
+    except Exception as e:  # noqa: BLE001
+        return [Failure("BiMap (key comparison)", "comparing-or-hashing-keys-raises", repr(e)[:200])]
 
 
 def nontrivial(spec, obs):
